@@ -319,6 +319,11 @@ func runC19(w *World, st *Stats, r *Rng, k, dk Kind, R, W, iters, procs int, car
 	ch := r.Range(1, 4)
 	perWriter := r.Range(1, 3)
 	roFrames := 3 // frames [0, roFrames) are never written: readers use them while writers run
+	if W == 0 {
+		// readers only: a long shared buffer (size-dependent read paths), fewer iterations
+		roFrames = []int{256, 300, 1024, 70}[r.Intn(4)]
+		iters = iters/20 + 2
+	}
 	K := roFrames + W*perWriter + r.Range(0, 2)
 	w.Case(fmt.Sprintf("C19 %s ch%d K%d R%d W%d iters%d procs%d", k, ch, K, R, W, iters, procs))
 	st.shape("R%d/W%d/procs%d/carve%v", R, W, procs, carve)
